@@ -2,7 +2,12 @@
 //! `additional_edits`) and records, per proposed edit list, everything spec/EditsTrace.tla needs to
 //! decide the property: the document text, the edits, the text after applying them (applied here
 //! byte-wise; the specification applies them again with its own `ApplyEdits` and the two must agree),
-//! and what the real parser/checker say about the document before and after.
+//! and what the real parser/checker say about the document before and after (syntax errors, unresolved
+//! classes, EVERY diagnostic rendered without its position, the imports in source order and the classes the
+//! document declares -- from which EditsTrace.tla reads which module every class name is bound to).
+//! Proposals are requested wherever the class name is written in an expression: at the unresolved-class
+//! errors the server holds (`site_kind` "unresolved") and at the occurrences where the name is bound
+//! already ("bound": imported from one of several exporters, or declared by the document itself).
 //!
 //! `vh edits-run --cases FILE --out FILE`
 //! One case per line:
@@ -45,6 +50,13 @@ struct Analysis {
   unresolved: Vec<String>,
   other_errors: Vec<String>,
   imports: Vec<(String, String)>,
+  /// every diagnostic of the document (any kind), rendered without its location
+  diags: Vec<String>,
+  /// the imports in source order, one entry per imported name (the LAST import of a name is the one a
+  /// class name resolves through: source_parser.rs class_source_map)
+  imports_seq: Vec<(String, String)>,
+  /// names of the classes / interfaces the document declares itself
+  locals: Vec<String>,
   /// every toplevel printed by the real printer, comments included
   toplevels: Vec<String>,
   /// the same for the text with every comment blanked out ("the same program" does not speak of comments)
@@ -111,6 +123,9 @@ fn analyze(doc: &str, mods: &BTreeMap<String, String>) -> Result<Analysis, Strin
     }
     let st = ServerState::new(heap, false, hs);
     let (mut syntax, mut unresolved, mut other_errors) = (vec![], vec![], vec![]);
+    let mut diags: Vec<String> =
+      st.get_errors(&d).iter().map(|e| e.to_ide_format(&st.heap, &st.string_sources).ide_error.trim().to_string()).collect();
+    diags.sort();
     for e in st.get_errors(&d) {
       match &e.detail {
         ErrorDetail::InvalidSyntax(r) => syntax.push(r.clone()),
@@ -133,11 +148,81 @@ fn analyze(doc: &str, mods: &BTreeMap<String, String>) -> Result<Analysis, Strin
         imports.push((m.clone(), n.name.as_str(&heap).to_string()));
       }
     }
+    let imports_seq = imports.clone();
     imports.sort();
+    let locals: Vec<String> = parsed.toplevels.iter().map(|t| t.name().name.as_str(&heap).to_string()).collect();
     let toplevels = printed_toplevels(doc);
     let toplevels_no_comments = printed_toplevels(&blank_comments(doc));
-    Analysis { syntax, unresolved, other_errors, imports, toplevels, toplevels_no_comments }
+    Analysis { syntax, unresolved, other_errors, diags, imports_seq, locals, imports, toplevels, toplevels_no_comments }
   })
+}
+
+/// The places in the expressions of `doc` where the class name `cls` is written (real parser).
+fn class_occurrences(doc: &str, cls: &str) -> Vec<(Position, Position)> {
+  use samlang_ast::source::{expr, Toplevel};
+  fn ex(e: &expr::E<()>, heap: &Heap, cls: &str, out: &mut Vec<(Position, Position)>) {
+    match e {
+      expr::E::Literal(..) | expr::E::LocalId(..) => {}
+      expr::E::ClassId(c, _, id) => {
+        if id.name.as_str(heap) == cls {
+          out.push((c.loc.start, c.loc.end));
+        }
+      }
+      expr::E::Tuple(_, l) => l.expressions.iter().for_each(|x| ex(x, heap, cls, out)),
+      expr::E::FieldAccess(f) => ex(&f.object, heap, cls, out),
+      expr::E::MethodAccess(f) => ex(&f.object, heap, cls, out),
+      expr::E::Unary(u) => ex(&u.argument, heap, cls, out),
+      expr::E::Call(c) => {
+        ex(&c.callee, heap, cls, out);
+        c.arguments.expressions.iter().for_each(|x| ex(x, heap, cls, out));
+      }
+      expr::E::Binary(b) => {
+        ex(&b.e1, heap, cls, out);
+        ex(&b.e2, heap, cls, out);
+      }
+      expr::E::IfElse(i) => ife(i, heap, cls, out),
+      expr::E::Match(m) => {
+        ex(&m.matched, heap, cls, out);
+        m.cases.iter().for_each(|c| ex(&c.body, heap, cls, out));
+      }
+      expr::E::Lambda(l) => ex(&l.body, heap, cls, out),
+      expr::E::Block(b) => blk(b, heap, cls, out),
+    }
+  }
+  fn ife(i: &expr::IfElse<()>, heap: &Heap, cls: &str, out: &mut Vec<(Position, Position)>) {
+    match i.condition.as_ref() {
+      expr::IfElseCondition::Expression(c) | expr::IfElseCondition::Guard(_, c) => ex(c, heap, cls, out),
+    }
+    blk(&i.e1, heap, cls, out);
+    match i.e2.as_ref() {
+      expr::IfElseOrBlock::IfElse(n) => ife(n, heap, cls, out),
+      expr::IfElseOrBlock::Block(b) => blk(b, heap, cls, out),
+    }
+  }
+  fn blk(b: &expr::Block<()>, heap: &Heap, cls: &str, out: &mut Vec<(Position, Position)>) {
+    for s in &b.statements {
+      match s {
+        expr::Statement::Declaration(d) => ex(&d.assigned_expression, heap, cls, out),
+        expr::Statement::Expression(e) => ex(e, heap, cls, out),
+      }
+    }
+    if let Some(e) = &b.expression {
+      ex(e, heap, cls, out);
+    }
+  }
+  let mut heap = Heap::new();
+  let d = mref(&mut heap, DOC);
+  let mut es = samlang_errors::ErrorSet::new();
+  let parsed = samlang_parser::parse_source_module_from_text(doc, d, &mut heap, &mut es);
+  let mut out = vec![];
+  for t in &parsed.toplevels {
+    if let Toplevel::Class(c) = t {
+      for m in &c.members.members {
+        ex(&m.body, &heap, cls, &mut out);
+      }
+    }
+  }
+  out
 }
 
 #[derive(Clone, Debug)]
@@ -381,8 +466,19 @@ pub fn run(args: &[String]) {
       .filter(|e| matches!(&e.detail, ErrorDetail::CannotResolveClass { name, .. } if name.as_str(&st.heap) == cls))
       .map(|e| e.location)
       .collect();
-    if locs.is_empty() {
+    // --- and every other place where the class name is written in an expression (there it is bound already:
+    // imported, or declared by the document itself); proposals are requested at both kinds of place
+    let n_unresolved_sites = locs.len();
+    let mut locs = locs;
+    for (start, end) in guarded(|| class_occurrences(&doc, &cls)).unwrap_or_default() {
+      if !locs.iter().any(|l| l.start == start && l.end == end) {
+        locs.push(Location { module_reference: d, start, end });
+      }
+    }
+    if n_unresolved_sites == 0 {
       n_noerr += 1;
+    }
+    if locs.is_empty() {
       emit(&mut f, json!({"kind": "noerror", "unres_before": before.unresolved, "syn_before": before.syntax}), &mut n_records);
       continue;
     }
@@ -424,6 +520,10 @@ pub fn run(args: &[String]) {
         "edits": edits.iter().map(|e| json!({"mod": e.module, "sl": clamp(e.sl), "sc": clamp(e.sc), "el": clamp(e.el), "ec": clamp(e.ec), "text": e.text})).collect::<Vec<_>>(),
         "syn_before": before.syntax, "unres_before": before.unresolved,
         "imports_before": before.imports.iter().map(|(m, n)| json!([m, n])).collect::<Vec<_>>(),
+        "site_kind": if kind.split('@').nth(1).unwrap().parse::<usize>().unwrap() < n_unresolved_sites { "unresolved" } else { "bound" },
+        "diag_before": before.diags,
+        "imports_seq_before": before.imports_seq.iter().map(|(m, n)| json!([m, n])).collect::<Vec<_>>(),
+        "locals_before": before.locals,
       });
       match apply_edits(&doc, &edits) {
         Err(why) => {
@@ -436,6 +536,9 @@ pub fn run(args: &[String]) {
           rec["toplevels_equal"] = json!(false);
           rec["comments_kept_in_place"] = json!(false);
           rec["new_other_errors"] = json!([]);
+          rec["diag_after"] = json!([]);
+          rec["imports_seq_after"] = json!([]);
+          rec["locals_after"] = json!([]);
         }
         Ok(applied) => {
           rec["applied"] = json!(true);
@@ -443,6 +546,9 @@ pub fn run(args: &[String]) {
           match analyze(&applied, &mods) {
             Ok(after) => {
               rec["syn_after"] = json!(after.syntax);
+              rec["diag_after"] = json!(after.diags);
+              rec["imports_seq_after"] = json!(after.imports_seq.iter().map(|(m, n)| json!([m, n])).collect::<Vec<_>>());
+              rec["locals_after"] = json!(after.locals);
               rec["unres_after"] = json!(after.unresolved);
               rec["imports_after"] = json!(after.imports.iter().map(|(m, n)| json!([m, n])).collect::<Vec<_>>());
               rec["toplevels_equal"] = json!(after.toplevels_no_comments == before.toplevels_no_comments);
@@ -452,6 +558,9 @@ pub fn run(args: &[String]) {
             }
             Err(p) => {
               n_panics += 1;
+              rec["diag_after"] = json!([]);
+              rec["imports_seq_after"] = json!([]);
+              rec["locals_after"] = json!([]);
               rec["kind"] = json!("panic");
               rec["where"] = json!("analysis after");
               rec["panic"] = json!(p);
